@@ -108,11 +108,15 @@ def INDEX(arr, row_num=DEFAULT, column_num=DEFAULT, area_num=DEFAULT):
         if row_num == 0 and column_num == 0:
             return arr
         if row_num == 0:
+            if not bidimensional:
+                return error.REF  # the elements are not rows: do not subscript a text element
             return [row[column_num - 1] for row in arr]
         if column_num == 0:
             return arr[row_num - 1]
-        if not bidimensional and column_num == 1:
-            return arr[row_num -1]
+        if not bidimensional:
+            if column_num == 1:
+                return arr[row_num - 1]
+            return error.REF  # the elements are not rows: do not subscript a text element
         return arr[row_num - 1][column_num - 1]
     except (IndexError, TypeError):
         return error.REF
